@@ -116,6 +116,14 @@ func (x *X) eval(env *Env, e ast.Expr) TV {
 		}
 		panic(fmt.Sprintf("contract: unknown identifier %q", e.Name))
 	case *ast.UnaryExpr:
+		if e.Op == token.AND {
+			if id, ok := e.X.(*ast.Ident); ok {
+				if tv, ok := env.vars["&"+id.Name]; ok {
+					return tv
+				}
+			}
+			panic(fmt.Sprintf("contract: cannot take the address of %s", types.ExprString(e.X)))
+		}
 		if e.Op == token.NOT {
 			x.polarity = -x.polarity
 		}
@@ -426,6 +434,31 @@ func (x *X) evalCall(env *Env, e *ast.CallExpr) TV {
 			}
 			k := x.eval(env, e.Args[0])
 			return TV{S{"(select " + sv.V.(S).T + " " + k.V.(S).T + ")", SBool}, boolT}
+		case "buflen", "bufat":
+			// ghost contents of a bytes.Buffer / strings.Builder: buflen(&b), bufat(&b, i)
+			a := x.eval(env, e.Args[0])
+			ref := bufRef(a.V)
+			if id.Name == "buflen" {
+				return TV{S{x.bufLen(ref), SInt}, types.Typ[types.Int]}
+			}
+			i := x.eval(env, e.Args[1])
+			x.addPoint(i.V.(S).T, "idx")
+			return TV{S{x.bufAt(ref, i.V.(S).T), SInt}, types.Typ[types.Uint8]}
+		case "arb":
+			// arb(name, "Type"): an arbitrary value of the type (the same one for the same name within
+			// this specification): proving a goal about it proves it for all values
+			nm := e.Args[0].(*ast.Ident).Name
+			if tv, ok := x.arbs[nm]; ok {
+				return tv
+			}
+			ts, _ := strconv.Unquote(e.Args[1].(*ast.BasicLit).Value)
+			t := x.resolveType(env.pkg, ts)
+			tv := TV{x.freshVal(t, nm), t}
+			if x.arbs == nil {
+				x.arbs = map[string]TV{}
+			}
+			x.arbs[nm] = tv
+			return tv
 		case "hint":
 			// hint(t): always true; only puts the term t in front of the solver (a trigger)
 			a := x.eval(env, e.Args[0])
